@@ -493,6 +493,93 @@ def user_dialect_harness(e):
     return scenario
 
 
+_VER_SOURCE: list[Any] = []
+
+
+def _ver_source():
+    if not _VER_SOURCE:
+        from dataclasses import dataclass as _dc
+        from pyoak.origin import Source
+
+        @_dc(frozen=True)
+        class VerSource(Source):
+            """What a user-defined source looks like: one more (int) field."""
+
+            version: int = 3
+
+        _VER_SOURCE.append(VerSource)
+    return _VER_SOURCE[0]
+
+
+def source_table_harness(e):
+    """Source.all_as_dict(dialect) is a serialization call like any other: its dialect reaches the
+    sources nested in a registered SourceSet, the table equals what as_dict(dialect) writes for
+    each registered source, and nothing carries over to the next call."""
+    from pathlib import Path
+
+    from mashumaro.dialect import Dialect
+    from pyoak.origin import CodeOrigin, FileSource, MemoryTextSource, Source, SourceSet, get_code_range, merge_origins
+
+    reset_all()
+    _Hook.reset()
+
+    class TaggedInts(Dialect):
+        serialization_strategy = {int: {"serialize": lambda v: f"i{v}"}}
+
+    class UriPaths(Dialect):
+        serialization_strategy = {Path: {"serialize": lambda p_: "file:" + p_.as_posix()}}
+
+    VerSource = _ver_source()
+    members = e.pick(["file+versioned", "versioned+memory", "file+file"], "members")
+    s1 = FileSource(Path("pkg/one.txt")) if members != "versioned+memory" else VerSource("u:two", "Fetched", version=5)
+    s2 = {"file+versioned": lambda: VerSource("u:two", "Fetched", version=5), "versioned+memory": lambda: MemoryTextSource("abc", source_uri="m"), "file+file": lambda: FileSource(Path("pkg/two.txt"))}[members]()
+    how = e.pick(["merged-origins", "explicit-set", "set-of-a-set"], "nesting")
+    if how == "merged-origins":
+        rng = get_code_range(0, 1, 0, 2, 1, 2)
+        merge_origins(CodeOrigin(s1, rng), CodeOrigin(s2, rng))
+    elif how == "explicit-set":
+        SourceSet(sources=(s1, s2))
+    else:
+        SourceSet(sources=(SourceSet(sources=(s1,)), s2))
+    dname = e.pick(["ints-as-tagged-strings", "paths-as-uris"], "user_dialect")
+    D = TaggedInts if dname == "ints-as-tagged-strings" else UriPaths
+    scenario: dict[str, Any] = {"members": members, "nesting": how, "user_dialect": dname}
+    baseline = copy.deepcopy(Source.all_as_dict())
+    first = e.pick(["table", "table-after-a-node-call-with-options"], "first")
+    if first != "table":
+        from pyoak.serialize import SerializationOption
+
+        build(TREES[0]).as_dict(serialization_options={SerializationOption.SKIP_CLASS: True})
+        baseline = copy.deepcopy(Source.all_as_dict())
+    table = Source.all_as_dict(mashumaro_dialect=D)
+    each = [s_.as_dict(mashumaro_dialect=D) for s_ in Source.list_registered_sources(exclude_no_source=True)]
+    bad = []
+
+    def walk(o, path="$"):
+        if isinstance(o, dict):
+            for k, v in o.items():
+                if k == "relative_path" and dname == "paths-as-uris" and not str(v).startswith("file:"):
+                    bad.append(f"{path}.{k}")
+                walk(v, f"{path}.{k}")
+        elif isinstance(o, (list, tuple)):
+            for i, v in enumerate(o):
+                walk(v, f"{path}[{i}]")
+        elif isinstance(o, int) and not isinstance(o, bool) and dname == "ints-as-tagged-strings":
+            bad.append(path)
+
+    walk(table)
+    if bad:
+        scenario.update(written_without_the_dialect=bad[:6])
+        e.fail("nested-object-ignores-option:source-table-dialect", scenario=scenario)
+    if table != each:
+        scenario.update(table=str(table)[:300], per_source=str(each)[:300])
+        e.fail("source-table-differs-from-the-sources-written-one-by-one", scenario=scenario)
+    if not _slots_default() or Source.all_as_dict() != baseline:
+        e.fail("later-default-call-affected:source-table", scenario=scenario)
+    e.distinct((members, how, dname, first))
+    return scenario
+
+
 def _decided(e, b) -> bool:
     if isinstance(b, bool):
         return True
@@ -521,6 +608,7 @@ def spec(tier: str, seed: int) -> Spec:
     states = ["all-registered", "cleared", "cleared-then-new-parent-with-a-registered-source"]
     fams += [Family(f"source-registry-state-{k}", make_harness(1, k, None, [0, 3], states), variables=var + "; selector: which of the tree's sources are in the source registry") for k in (SER if tier != "quick" else ["as_dict", "to_json"])]
     fams.append(Family("user-mashumaro-dialect", user_dialect_harness, variables="selectors: tree, call"))
+    fams.append(Family("source-table-with-a-dialect", source_table_harness, variables="selectors: member sources, how the set of sources is nested, dialect, preceding call"))
     fams.append(Family("options-object-reused-and-edited", options_object_harness, variables="selectors: tree, option values, first and second call kind"))
     fams.append(Family("serializable-objects-in-untyped-properties", untyped_objects_harness, variables="selectors: held value, JSON front-end variant, sort_keys"))
     fams.append(Family("property-values-that-are-serializable-objects", object_values_harness, variables="selectors: sibling order, front-end / dialect"))
